@@ -1416,6 +1416,24 @@ func c17unmarshal(ty reflect.Type, text string) c17res {
 		if err := u.UnmarshalText([]byte(text)); err != nil {
 			return 0, err
 		}
+		// "every name denotes exactly one number": the result must not depend on what the
+		// destination held before, so decode again into a destination holding garbage
+		q := reflect.New(ty)
+		if ty.Kind() == reflect.Uint32 {
+			q.Elem().SetUint(0xFFFFFFF5)
+		} else {
+			q.Elem().SetInt(0x7FFFFFF5)
+		}
+		if err := q.Interface().(encoding.TextUnmarshaler).UnmarshalText([]byte(text)); err == nil {
+			if ty.Kind() == reflect.Uint32 && q.Elem().Uint() != p.Elem().Uint() {
+				return int64(q.Elem().Uint()), nil
+			}
+			if ty.Kind() != reflect.Uint32 && q.Elem().Int() != p.Elem().Int() {
+				return q.Elem().Int(), nil
+			}
+		} else {
+			return 0, fmt.Errorf("accepted into a zero destination, rejected into a non-zero one: %v", err)
+		}
 		if ty.Kind() == reflect.Uint32 {
 			return int64(p.Elem().Uint()), nil
 		}
@@ -1434,6 +1452,12 @@ func c17reflectRT(ty reflect.Type, v int64, json bool) (doc string, r c17res) {
 			p.Elem().SetInt(v)
 		}
 		q := reflect.New(ty)
+		// the destination holds garbage: decoding must overwrite it
+		if ty.Kind() == reflect.Uint32 {
+			q.Elem().SetUint(0xFFFFFFF5)
+		} else {
+			q.Elem().SetInt(0x7FFFFFF5)
+		}
 		var err error
 		if json {
 			b := ttlv.MarshalJSON(p.Elem().Interface())
